@@ -110,3 +110,25 @@ def array_convert(vals, us1, us2, d):
         if abs(float(r.value[i]) - s) > 1e-12 * abs(s):
             return False
     return True
+
+
+LAT6 = [-1.75, 0.0, 0.5, 3.25]
+
+
+def array_convert_forms(ia, ib, us1, us2, d, form):
+    """UnitArray.convert agrees element-wise with the scalar conversion for every accepted target form (values from a lattice)."""
+    vals = [LAT6[ia], LAT6[ib], 2.0]
+    arr = UnitArray(list(vals), Units(SYS[us1], UnitsDimensions(*d)))
+    tgt_u = Units(SYS[us2], UnitsDimensions(*d))
+    tgt = {"sys": SYS[us2], "units": tgt_u, "uv": UnitValue(1.0, tgt_u), "dict": {"space": SYS[us2]["space"], "time": SYS[us2]["time"], "quantity": SYS[us2]["quantity"]},
+           "str": str(tgt_u)}[form]
+    r = arr.convert(tgt)
+    if len(r) != 3 or dims(r) != tuple(d):
+        return False
+    for i, x in enumerate(vals):
+        sv = UnitValue(x, Units(SYS[us1], UnitsDimensions(*d)))
+        if abs(si(r.get_at(i)) - si(sv)) > 1e-9 * abs(si(sv)):
+            return False
+        if form != "str" and r.units.sys != SYS[us2]:
+            return False
+    return True
